@@ -327,6 +327,37 @@ class Monitor:
                                 dict(case, value=w))
                     return
 
+    def check_convenience_tuples(self, rng):
+        """StatusType / LimitsType are tuples with a convenient constructor; what a client rebuilds from their description
+        (and what copy() gives) is a plain tuple with the same members: the verdicts between the two follow the value sets"""
+        import frappy.datatypes as DT
+        r = self.r
+        names = rng.sample(['IDLE', 'WARN', 'BUSY', 'ERROR', 'DISABLED', 'PREPARING', 'UNKNOWN'], rng.randint(2, 5))
+        st = DT.StatusType(*names)
+        lo = rng.choice([0.0, -5.0, 1.5])
+        lim = DT.LimitsType(DT.FloatRange(lo, lo + rng.choice([1.0, 10.0])))
+        pairs = []
+        for kind, conv in (('status', st), ('limits', lim)):
+            plain = DT.get_datatype(json.loads(json.dumps(conv.export_datatype())))
+            pairs.append((f'{kind}-type->its-own-description', conv, plain))
+            pairs.append((f'{kind}-type->its-copy', conv, conv.copy()))
+            if kind == 'status':
+                # (a limits pair is ordered, a plain tuple of the same members need not be: that direction is not nested)
+                pairs.append((f'description->{kind}-type', plain, conv))
+                pairs.append((f'copy->{kind}-type', conv.copy(), conv))
+        for what, a, b in pairs:
+            r.count('compat_convenience_tuple_pairs')
+            r.case(('compat-convenience', what), True)
+            try:
+                a.compatible(b)
+            except self.Bad as e:
+                r.violation(f'C03/compat/incomplete/{what}', f'{a!r} -> {b!r}: the value sets are nested by construction but compatible() refuses ({e})'[:300],
+                            {'sub': 'compat-convenience', 'what': what, 'names': names})
+                return
+            except Exception as e:
+                r.violation(f'C03/compat/other-exception/{what}', f'{type(e).__name__}: {e}'[:200], {'sub': 'compat-convenience', 'what': what, 'names': names})
+                return
+
     def compat_culprit(self, da, db, other_exc=False):
         """reduce a refused nested pair to the innermost refused pair (other_exc: innermost pair raising
         something that is not a bad-value error)"""
@@ -453,6 +484,8 @@ def run_shard(shard):
         if i % 2 == 0:
             mon.check_copy(di, rng)
         mon.check_reconfigured(di, rng)
+        if i % 16 == 0:
+            mon.check_convenience_tuples(rng)
         # pairs
         for _ in range(3):
             da = aligned(gen_dt.gen_tree(rng, rng.choice([0, 0, 1, 2])))
@@ -526,6 +559,9 @@ def replay(case):
     elif sub == 'compat':
         for _ in range(10):
             mon.check_compat(case['a'], case['b'], case['relation'], rng)
+    elif sub == 'compat-convenience':
+        for _ in range(40):
+            mon.check_convenience_tuples(rng)
     elif sub == 'writable':
         for _ in range(5):
             mon.check_writable(case['value'], case['target'], case['relation'], rng)
